@@ -41,8 +41,8 @@ for _t, _al in gen.ALIASES.items():
 ALIAS.pop("unsigned char", None)
 FLT = {"float16": "e", "float": "f", "double": "d"}
 WCH = [0x41, 0x7A, 0xE9, 0x4E2D, 0x20AC, 0xD7FF, 0xE000, 0xFFFD, 0x0100, 0x00FF, 0x1, 0xFEFF, 0xFFFE, 0xFFFF, 0x0]
-FLOATS = {"float16": [0.0, 1.0, -2.0, 0.5, 65504.0, -0.25], "float": [0.0, 1.0, -1.5, 3.0e10, 1.1754943508222875e-38, 16777216.0],
-          "double": [0.0, 1.0, -1.5, 1e300, 2.2250738585072014e-308, 9007199254740993.0]}
+FLOATS = {"float16": [0.0, -0.0, 0.0, 1.0, -2.0, 0.5, 65504.0, -0.25, float("inf")], "float": [0.0, -0.0, 0.0, 1.0, -1.5, 3.0e10, 1.1754943508222875e-38, 16777216.0, float("-inf")],
+          "double": [0.0, -0.0, 0.0, 1.0, -1.5, 1e300, 2.2250738585072014e-308, 9007199254740993.0, float("inf")]}
 
 
 def order_of(e):
